@@ -29,6 +29,9 @@ pub enum P {
     /// ibc-hooks accounts of the original staker / collector through the *new* channel (channel-9)
     HookStaker3,
     HookCollector3,
+    /// native-chain accounts acting as senders on the protocol chain (meaningful when both chains share a prefix)
+    N1,
+    StakerAcct,
 }
 pub fn who_addr(w: &Who, p: &P) -> String {
     match p {
@@ -46,6 +49,8 @@ pub fn who_addr(w: &Who, p: &P) -> String {
         P::HookCollector2 => crate::addr::hook_sender("channel-9", &w.n1, &w.pp),
         P::HookStaker3 => crate::addr::hook_sender("channel-9", &w.staker, &w.pp),
         P::HookCollector3 => crate::addr::hook_sender("channel-9", &w.collector, &w.pp),
+        P::N1 => w.n1.clone(),
+        P::StakerAcct => w.staker.clone(),
     }
 }
 pub fn all_principals() -> Vec<P> {
@@ -249,6 +254,7 @@ pub fn run(b: &mut Built, op: &Op, pfx: &str, env: Envelope) -> StepOut {
             b.chain.fail_submit = faults.clone();
             let s = who_addr(&who, sender);
             let recv = receiver.map(|r| match r {
+                "self" => s.clone(),
                 "staker" => who.staker.clone(),
                 "n1" => who.n1.clone(),
                 "n2" => who.n2.clone(),
@@ -1062,6 +1068,7 @@ pub fn post_op(cx: &Ctx, b: &Built, op: &Op, s: &StepOut) {
         Op::Recover { sender, paginated, selected, receiver, .. } => {
             let recv = match receiver {
                 None => pre.cfg.native_chain_config.staker_address.to_string(),
+                Some("self") => who_addr(who, sender),
                 Some("staker") => who.staker.clone(),
                 Some("n1") => who.n1.clone(),
                 Some("n2") => who.n2.clone(),
